@@ -237,6 +237,23 @@ unsafe impl Sync for FixedCapacityMemoryPool {}
 impl FixedCapacityMemoryPool {
     /// Create a new fixed capacity memory pool
     pub fn new(config: FixedCapacityPoolConfig) -> Result<Self> {
+        // Blocks are laid out back to back at multiples of max_block_size and carry a
+        // BlockHeader while they are free, so the block size must keep every block aligned
+        // and must be able to hold the header.
+        if config.alignment == 0 || !config.alignment.is_power_of_two() {
+            return Err(ZiporaError::invalid_data("alignment must be a power of two"));
+        }
+        if config.max_block_size < std::mem::size_of::<BlockHeader>()
+            || config.max_block_size % config.alignment != 0
+        {
+            return Err(ZiporaError::invalid_data(
+                "max_block_size must be a multiple of alignment and at least 16 bytes",
+            ));
+        }
+        if config.total_blocks == 0 {
+            return Err(ZiporaError::invalid_data("total_blocks cannot be zero"));
+        }
+
         // Generate size classes
         let size_classes = Self::generate_size_classes(config.max_block_size, config.alignment);
         let num_classes = size_classes.len();
